@@ -8,6 +8,7 @@ a (0..255). Asserted:
   broadcast on, a == 0  -> the write is applied exactly once to BOTH hosted units, nothing is sent;
   a not hosted          -> nothing changes anywhere; either nothing is sent or a gateway exception (0x0A / 0x0B) with
                            fc | 0x80 (nothing at all when ignore_missing_slaves is set).
+alias.<frontend>: a broadcast write covering a whole table followed by a unicast write: the units remain separate stores.
 single.<frontend>: in single-context mode every unit id 0..255 reaches the one context.
 """
 from engine.hlib import assume, same, explain, known
@@ -32,7 +33,7 @@ def make_route(frontend, framing, im, bc):
         regsB = [st[8 + 2 * i] * 256 + st[9 + 2 * i] for i in range(4)]
         sA, sB = SL.small_context(hr=regsA), SL.small_context(hr=regsB)
         ctx = SL.server_context(None, single=False, units=[(u1, sA), (u2, sB)])
-        frame = adu.ref_adu(framing, bytes([6]) + b1, a, t)
+        frame = adu.ref_adu_clean(framing, bytes([6]) + b1, a, t)
         r = SL.drive(frontend, framing, ctx, [frame], ignore_missing=im, broadcast=bc)
         if r.escaped is not None or r.twisted_dropped is not None:
             explain("exception escaped the front-end: %r", r.escaped or r.twisted_dropped)
@@ -51,7 +52,7 @@ def make_route(frontend, framing, im, bc):
             pdu, exp = regfile.model(6, b1, (0, list(mine)), True)
             if not same(got_mine, exp, "addressed unit") or not same(got_other, list(other), "other unit"):
                 return False
-            return len(r.written) == 1 and same(r.written[0], adu.ref_adu(framing, pdu, a, t), "response")
+            return len(r.written) == 1 and same(r.written[0], adu.ref_adu_clean(framing, pdu, a, t), "response")
         # not hosted
         if not same(afterA, list(regsA), "unit u1 (request for an absent unit)") or not same(afterB, list(regsB), "unit u2"):
             return False
@@ -60,12 +61,43 @@ def make_route(frontend, framing, im, bc):
         if im:
             explain("ignore_missing_slaves set but %r was sent", r.written)
             return False
-        ok = len(r.written) == 1 and ((r.written[0] == adu.ref_adu(framing, bytes([0x86, 0x0B]), a, t)) or
-                                      (r.written[0] == adu.ref_adu(framing, bytes([0x86, 0x0A]), a, t)))
+        ok = len(r.written) == 1 and ((r.written[0] == adu.ref_adu_clean(framing, bytes([0x86, 0x0B]), a, t)) or
+                                      (r.written[0] == adu.ref_adu_clean(framing, bytes([0x86, 0x0A]), a, t)))
         if not ok:
             explain("absent unit answered with %r", r.written)
         return ok
     return route
+
+
+def make_alias(frontend, framing):
+    """two requests in a row: a BROADCAST write of a whole table (FC 16, all 4 registers), then a write to one unit:
+    afterwards the units are still separate stores (the second write is seen by the addressed unit only)"""
+    def alias(t: bytes, ids: bytes, w: bytes, b2: bytes, st: bytes) -> bool:
+        assume(len(t) == 4 and len(ids) == 2 and len(w) == 8 and len(b2) == 4 and len(st) == 16)
+        u1, u2 = ids[0], ids[1]
+        assume(u1 != u2)
+        assume(u1 != 0)
+        assume(u2 != 0)
+        regsA = [st[2 * i] * 256 + st[2 * i + 1] for i in range(4)]
+        regsB = [st[8 + 2 * i] * 256 + st[9 + 2 * i] for i in range(4)]
+        sA, sB = SL.small_context(hr=regsA), SL.small_context(hr=regsB)
+        ctx = SL.server_context(None, single=False, units=[(u1, sA), (u2, sB)])
+        b1 = bytes([0, 0, 0, 4, 8]) + w
+        f1 = adu.ref_adu_clean(framing, bytes([16]) + b1, 0, t[0:2])
+        f2 = adu.ref_adu_clean(framing, bytes([6]) + b2, u1, t[2:4])
+        r = SL.drive(frontend, framing, ctx, [f1, f2], ignore_missing=False, broadcast=True)
+        if r.escaped is not None or r.twisted_dropped is not None:
+            explain("exception escaped the front-end: %r", r.escaped or r.twisted_dropped)
+            return False
+        midA = regfile.model(16, b1, (0, list(regsA)), True)[1]
+        midB = regfile.model(16, b1, (0, list(regsB)), True)[1]
+        pdu2, expA = regfile.model(6, b2, (0, list(midA)), True)
+        if not same(list(sA.store["h"].values), expA, "addressed unit after broadcast + write"):
+            return False
+        if not same(list(sB.store["h"].values), midB, "other unit after broadcast + a write to its neighbour"):
+            return False
+        return len(r.written) == 1 and same(r.written[0], adu.ref_adu_clean(framing, pdu2, u1, t[2:4]), "response to the unicast write")
+    return alias
 
 
 def make_single(frontend, framing):
@@ -75,12 +107,12 @@ def make_single(frontend, framing):
         regs = [st[2 * i] * 256 + st[2 * i + 1] for i in range(4)]
         s = SL.small_context(hr=regs)
         ctx = SL.server_context(s, single=True)
-        r = SL.drive(frontend, framing, ctx, [adu.ref_adu(framing, bytes([6]) + b1, a, t)])
+        r = SL.drive(frontend, framing, ctx, [adu.ref_adu_clean(framing, bytes([6]) + b1, a, t)])
         if r.escaped is not None or r.twisted_dropped is not None:
             return False
         pdu, exp = regfile.model(6, b1, (0, list(regs)), True)
         return same(list(s.store["h"].values), exp, "the only context") and len(r.written) == 1 and \
-            same(r.written[0], adu.ref_adu(framing, pdu, a, t), "response")
+            same(r.written[0], adu.ref_adu_clean(framing, pdu, a, t), "response")
     return single
 
 
@@ -153,6 +185,10 @@ def obligations(tier):
                                bounds="%s / %s: hosted unit ids u1 != u2 in 0..255 and addressed unit 0..255 symbolic; FC6 body, tid, both 4-register tables symbolic; ignore_missing_slaves=%s broadcast_enable=%s" % (fe, fr, im, bc)))
             out.append(Obl("single.%s.%s" % (fe, fr), make_single(fe, fr), timeout=T, contracts=CONTRACTS[fr], lemmas=LEMMAS[fr],
                            bounds="%s / %s single-context mode: addressed unit 0..255 symbolic" % (fe, fr)))
+    for fe in (("sync-tcp",) if tier == "quick" else ("sync-tcp", "sync-udp", "sync-serial", "asyncio-tcp", "asyncio-udp")):
+        fr = "rtu" if fe == "sync-serial" else "tcp"
+        out.append(Obl("alias.%s.%s" % (fe, fr), make_alias(fe, fr), timeout=T, contracts=CONTRACTS[fr], lemmas=LEMMAS[fr],
+                       bounds="%s / %s, broadcast enabled: broadcast FC16 over the whole 4-register table (symbolic data), then FC6 (symbolic address/value) to one of two hosted units (symbolic ids): units stay separate stores" % (fe, fr)))
     for which in ("sync.ModbusTcpServer", "sync.ModbusUdpServer", "sync.ModbusSerialServer", "asyncio.ModbusTcpServer",
                   "asyncio.ModbusUdpServer", "twisted.ModbusServerFactory", "twisted.ModbusUdpProtocol"):
         out.append(Obl("config.%s" % which, make_config(which), timeout=T,
